@@ -89,6 +89,16 @@ class SimLoop(asyncio.SelectorEventLoop):
     def time(self) -> float:
         return self._vt
 
+    #: optional (rng, max_seconds): every timer fires up to max_seconds late,
+    #: as on a real loop (never early).  Off by default (exact timers).
+    timer_jitter = None
+
+    def call_at(self, when, callback, *args, context=None):
+        if self.timer_jitter is not None and when > self._vt:
+            rng, mx = self.timer_jitter
+            when = when + rng.uniform(0.0, mx)
+        return super().call_at(when, callback, *args, context=context)
+
     @property
     def now(self) -> float:
         return self._vt - T0
